@@ -61,10 +61,12 @@ CLAIMS = {
     "C18": ("node encryption: every slice/array access of encrypt, decrypt and the legacy box path is in bounds for EVERY ciphertext (any length, truncated or not: error, never a panic); the ciphertext is a function of (key, plaintext) only (nonce = blake2b(plaintext||key): unchanged nodes deduplicate); "
             "decrypt inverts encrypt for every plaintext and key as a lemma over the two verified contracts and the assumed seal/open law; the encryptor wraps the node store only (version objects use plain Persist objects)",
             "confidentiality and authentication are properties of the assumed primitives (trusted/crypto.contracts) and are not decided; readability of legacy-format data is not expressible by a contract within reach: a bounded run on the real code (never counted as proved) stands in and reports a KNOWN FINDING (legacy boxes longer than 32 bytes decrypt to garbage without error)", "DESIGN §6 C18, §12"),
+    "C03": ("the per-request protocol obligations the interleaving argument rests on (DESIGN §12.5): a commit publishes its version only after a successful flush and retires parents only after publishing; a parent is copied to merged/ BEFORE it is deleted from current/ and the new version is never deleted; "
+            "an opener looks for every version it listed in BOTH places, skips a version only when an object is reported missing (never on a transport error) and never when versions were named; genuine defect found (an open racing with a commit showed an empty table), replayed with a request hook and fixed",
+            "the property quantifies over all interleavings of k clients: the lift from these obligations to 'every opener sees every version committed before its open' is a pencil argument, not mechanised; liveness ('eventually contained') is not decided; assumes an atomic read-after-write object store and that other clients run the same code", "DESIGN §12.5"),
 }
 
 NOT_APPLICABLE = {
-    "C03": "quantifies over request-level interleavings of several clients (schedules, histories): a whole-history property that per-function contracts on sequential code cannot express; the ordering facts contracts can carry are claimed under C04/C11/C13 (DESIGN §7, §12.1)",
     "C19": "quantifies over thread schedules under the race detector; contracts on sequential code have no model of threads (DESIGN §7)",
 }
 
